@@ -81,6 +81,12 @@ def run(ctx):
                 sscen.append(["scenario", "new 1 %d tcp" % fam, "bind 1", "listen 1", "new 2 %d tcp" % fam, "plan " + ",".join(["connect:EINTR"] * k), "connect 2 1",
                               "plan " + ",".join(["poll:EINTR"] * k), "accept 3 1", "send 2 5", "plan " + ",".join(["poll:LATE40"] * k), "set 3 timeout 400", "recv 3 10",
                               "plan " + ",".join(["poll:LATE60"] * k), "set 3 timeout %d" % (60 * k + 120), "recv 3 10"])
+        # the accept call itself interrupted (not the wait before it), on listeners with and without a timeout: the pending connection is still accepted
+        for fam in (4, 6):
+            for k in (1, 2):
+                for T in (0, 500):
+                    sscen.append(["scenario", "new 1 %d tcp" % fam, "bind 1", "listen 1", "set 1 timeout %d" % T, "new 2 %d tcp" % fam, "connect 2 1", "sleepms 20",
+                                  "plan " + ",".join(["accept:EINTR"] * k), "accept 3 1", "send 2 5", "set 3 timeout 300", "recv 3 10"])
         # very long timeouts (hours: beyond 2^31 microseconds) with an interruption early in the wait: what is left of the timeout is still hours, the
         # call is served when the peer acts 150 ms later
         for fam in (4, 6):
